@@ -43,7 +43,7 @@ def plan(tier, seed):
                               "segments is unbounded by induction" % (maxb, max1, max2, tot),
                         "L2": "%d operations x reply corpus (%d replies from the RFC 5804 reply grammar) x every placement of one "
                               "cut%s x recv() capped at %s, each followed by a sentinel operation; compared with the single-segment run"
-                              % (H.NOP, sum(len(c) for c in H.CORPUS), "" if q else " (and of two cuts, caps none/1)",
+                              % (H.NOP, sum(len(c) for c in H.CORPUS), "" if q else " (and of two cuts for replies up to 80 bytes, caps none/1)",
                                  "none/1/3" if q else "none/1/2/3/7/64")},
                 outside=["L3: three replies of 6-11 kB (script body, listing, NO with a 4 kB literal text after a big body) x 19 cut places "
                          "around 0 and the 4096 / 8192 boundaries x recv() capped at none/4096/1000/64",
